@@ -363,6 +363,17 @@ func (r *runner) connect(f *fnode, l int) error {
 	// like server.followSource: the Follow message is reused across reconnects, its
 	// EarliestOffset is the offset of the last entry delivered
 	msg := *fo
+	{
+		// what the follower tells the leader: per table the offset of the last entry of
+		// this leader it has offered to the table, and the last offset delivered on the link
+		tabs := map[string][2]int64{}
+		for _, part := range msg.Partitions {
+			for _, pt := range part.Tables {
+				tabs[pt.Name] = zenodb.VerifOffset(pt.Offsets[l])
+			}
+		}
+		r.emit(map[string]interface{}{"a": "Ev", "e": "connect", "l": l, "f": f.name, "tabs": tabs, "earliest": zenodb.VerifOffset(msg.EarliestOffset)})
+	}
 	go ldb.Follow(&msg, func(data []byte, off wal.Offset) error {
 		lk.mx.Lock()
 		ok := lk.up && lk.gen == gen
@@ -466,7 +477,8 @@ func (r *runner) settle() error {
 		}
 		for _, f := range r.fol {
 			for _, tn := range r.tablesOf(f) {
-				if r.ctl.Verdicts[tn] < r.ctl.Reads[tn] || r.ctl.Applies[tn] < r.ctl.Offers[tn] {
+				// everything handed to the table's pipeline has been announced, decided and applied
+				if r.ctl.Reads[tn] < r.ctl.FolOffers[tn] || r.ctl.Verdicts[tn] < r.ctl.Reads[tn] || r.ctl.Applies[tn] < r.ctl.Offers[tn] {
 					return false
 				}
 			}
@@ -669,7 +681,7 @@ func (r *runner) exec(c *Cmd) error {
 		}
 		r.ctl.Locked(func() {
 			for _, tn := range r.tablesOf(f) {
-				r.ctl.Reads[tn], r.ctl.Verdicts[tn], r.ctl.Offers[tn], r.ctl.Applies[tn] = 0, 0, 0, 0
+				r.ctl.Reads[tn], r.ctl.Verdicts[tn], r.ctl.Offers[tn], r.ctl.Applies[tn], r.ctl.FolOffers[tn] = 0, 0, 0, 0, 0
 			}
 		})
 		if err := r.openFollower(f); err != nil {
@@ -696,6 +708,7 @@ func (r *runner) exec(c *Cmd) error {
 		os.RemoveAll(f.dir)
 		f.dir, f.snapDir = f.snapDir, ""
 	case "RestartLeader":
+		r.emit(map[string]interface{}{"a": "Ev", "e": "lrestart", "l": c.L})
 		ldb := r.leaders[c.L]
 		for _, f := range r.fol {
 			r.cut(f, c.L)
